@@ -199,7 +199,7 @@ structure Prims where
   /-- `datetime.timestamp()` -/
   timestampOf : V → Outcome FloatV
   /-- `timedelta.total_seconds()` of a duration given in microseconds -/
-  totalSeconds : Int → FloatV
+  totalSeconds : Int → Outcome FloatV
   /-- `x / 1000` on an int, float or Decimal -/
   div1000 : V → Outcome V
   /-- `datetime.utcfromtimestamp(x).replace(tzinfo=timezone.utc)` -/
@@ -404,6 +404,7 @@ def eqScalar (a b : V) : Bool :=
     | .none, .none => true
     | .complex r i, .complex r' i' => r == r' && i == i' && r != .nan && i != .nan
     | .complex r i, o => fZero i && (match num? o with | some y => NumV.eq (match r with | .fin m e => .fin ⟨m, e, 0⟩ | .inf s => .inf s | .nan => .nan) y | Option.none => false)
+    | o, .complex r i => fZero i && (match num? o with | some y => NumV.eq (match r with | .fin m e => .fin ⟨m, e, 0⟩ | .inf s => .inf s | .nan => .nan) y | Option.none => false)
     | .str _ s, .str _ s' => s == s'
     | .bytes _ _ x, .bytes _ _ y => x == y
     | .date _ d, .date _ d' => d == d'
@@ -446,6 +447,7 @@ def hashable : V → Bool
   | .seq k _ xs => if k == .tuple then hashableList xs else k == .frozenset
   | .dict _ _ => false
   | .bytes k _ _ => k != .bytearray
+  | .dec _ (.nan true) => false          -- "Cannot hash a signaling NaN value"
   | _ => true
 termination_by structural v => v
 def hashableList : List V → Bool
@@ -550,7 +552,9 @@ def attemptFromNumber (P : Prims) (E : Env) (f : Flags) (v : V) : Outcome V := d
   | .datetime _ _ _ => do
     let x ← P.timestampOf d
     pure (.float 0 x)
-  | .delta _ us => pure (.float 0 (P.totalSeconds us))
+  | .delta _ us => do
+    let x ← P.totalSeconds us
+    pure (.float 0 x)
   | .complex re im =>
     if !f.ndl then
       if fZero im then pure (.float 0 re) else pure d
@@ -1042,7 +1046,7 @@ def toDate (P : Prims) (E : Env) (f : Flags) (v : V) : Outcome V :=
     | _ => .unmodelled "to_datetime returned a non-datetime"
 
 /-- `kw` handling of `to_timedelta` :579-591 -/
-def durationKw (P : Prims) (c : Nat) (kw : List (String × Option String)) : Outcome V := do
+def durationKw (P : Prims) (_c : Nat) (kw : List (String × Option String)) : Outcome V := do
   let sign : Int := if kw.lookup "sign" == some (some "-") then -1 else 1
   let kw := kw.filter (fun p => p.1 != "sign")
   let get (k : String) : Option String := (kw.lookup k).join
@@ -1062,7 +1066,7 @@ def durationKw (P : Prims) (c : Nat) (kw : List (String × Option String)) : Out
     | (_, Option.none) :: rest => floats rest
   let kwf ← floats kw
   let r ← P.timedeltaKw sign kwf
-  pure (retag c r)
+  pure (retag 0 r)          -- `sign * t(**kw)`: timedelta.__rmul__ returns a plain timedelta, whatever `t` is
 
 /-- the `DURATION_REGS` loop -/
 def durationRegs (P : Prims) (c : Nat) (s : String) : List Nat → Outcome (Option V)
@@ -1141,7 +1145,9 @@ def toUuid (P : Prims) (f : Flags) (c : Nat) (v : V) : Outcome V :=
     if k == .memoryview then .perr .typeError else do
     -- `try: return t(data.decode()) except ValueError: return t(bytes=data)`
     let n ← Outcome.orElseV (P.decode true bs >>= P.uuidOfStr)
-      (if bs.length == 16 then .ok (bytesToNat bs) else .perr .valueError)
+      (if bs.length != 16 then .perr .valueError
+       else if k == .bytearray then .escape (.other "AssertionError")   -- uuid.py: `assert isinstance(bytes, bytes_)`
+       else .ok (bytesToNat bs))
     pure (.uuid c n)
   | _ =>
     if f.nec then .perr .typeError else do
@@ -1161,6 +1167,10 @@ def enumCall (E : Env) (k : Nat) (v : V) : Outcome V :=
   match E.enum? k with
   | Option.none => .unmodelled "no such enum"
   | some d =>
+    -- hashing a signalling NaN raises TypeError (caught by `Enum.__call__`), the fallback scan compares it
+    -- with every member value: InvalidOperation as soon as one is a number
+    if (match v with | .dec _ (.nan true) => true | _ => false) && d.members.any (fun m => (num? m.2).isSome)
+    then .escape .invalidOperation else
     match d.members.findIdx? (fun m => pyeq m.2 v) with
     | some i => .ok (.enum k i)
     | Option.none => .perr .valueError
@@ -1169,7 +1179,11 @@ def enumCall (E : Env) (k : Nat) (v : V) : Outcome V :=
 def enumByName (E : Env) (k : Nat) (name : String) : Option V :=
   match E.enum? k with
   | Option.none => Option.none
-  | some d => (d.members.findIdx? (fun m => m.1 == name)).map (.enum k ·)
+  | some d =>
+    -- an alias name resolves to the canonical (first) member with that value
+    match d.members.find? (fun m => m.1 == name) with
+    | some m => (d.members.findIdx? (fun m' => pyeq m'.2 m.2)).map (.enum k ·)
+    | Option.none => Option.none
 
 /-- the registered converters for builtin member types (what `self(data, member_type)` can resolve to) -/
 def convBase (P : Prims) (E : Env) (f : Flags) (b : Base) (v : V) : Outcome V :=
